@@ -1,6 +1,8 @@
 (* C02/Props.v — property theorems only; each closed by [exact] of a lemma of Proofs.v /
    SpecProofs.v / FastProofs.v and followed by Print Assumptions. *)
 From Verif Require Import Shard.Store C02.Spec C02.Model C02.Fast C02.KV C02.SpecProofs C02.FastProofs C02.Proofs.
+From Verif Require Import C02.Blocks C02.BlocksProofs C02.BlocksRefine C02.BlocksLayerA C02.BlocksRefineDesc C02.BlocksLayerADesc.
+From Coq Require Import Permutation.
 From VerifGen Require Import Consts.
 Open Scope Z_scope.
 
@@ -175,3 +177,179 @@ Example type_conflict_partial_nonvacuous :
   shard_read (fst (write st pts)) [109%N] [97%N] [102%N] 0 9 true = RVals [(2, VInt 4)] /\
   shard_read (fst (write st pts)) [109%N] [] [102%N] 0 9 true = RVals [(1, VInt 1)].
 Proof. vm_compute. auto 6. Qed.
+
+(* ================= layer B: blocks, KeyCursor, cache/TSM cursor (Blocks.v) ================= *)
+
+(* the code shapes Blocks.v mirrors, re-read from file_store.go / file_store.gen.go on every
+   run: insertion sort of the locations, readMax = t-1 / readMin = t+1 and the skip of wholly
+   tombstoned blocks in FileStore.locations, the loop bounds of nextAscending/nextDescending
+   (the latter starts AT pos: the first location is in current twice), the merge order and
+   the current[1:] / markRead steps of Read<T>Block *)
+Example layerB_shapes_match_source :
+  c02_keycursor_insertion_sort && c02_locations_read_marks && c02_next_desc_doubles_first && c02_readblock_merge_order = true.
+Proof. reflexivity. Qed.
+
+(* C02 "no matter how the data is split between ... any number of overlapping data files":
+   For EVERY list of files, oldest -> newest, each a list of BLOCKS (non-empty, strictly
+   sorted, not overlapping within a file; ARBITRARY overlaps across files, any number of
+   block locations) with any tombstone ranges, int64 timestamps, and EVERY seek time
+   MinInt64 < t <= MaxInt64: the blocks the ascending KeyCursor returns — FileStore.locations,
+   sortLocations, seekAscending, then Read<T>Block / Next / Read<T>Block ... with their read
+   marks, until an empty block — concatenated, are exactly the layer-A read of the files from
+   t on (files overlaid oldest -> newest, newest file wins, tombstoned ranges removed;
+   Shard/Store.v [read], the read that read_refines_lww is about): strictly ascending, each
+   timestamp once, nothing lost, nothing returned twice.  The fuel of the model's loop is
+   proved sufficient inside. *)
+Theorem keycursor_asc_refines_layerA :
+  forall (fs : list bfile) (t : Z),
+  Forall file_wf fs -> files_int64 fs -> min_int64 < t <= max_int64 ->
+  kc_values fs t true = layerA_read fs t true.
+Proof. exact keycursor_asc_refines_layerA_lemma. Qed.
+Print Assumptions keycursor_asc_refines_layerA.
+
+(* ... and the DESCENDING KeyCursor (seekDescending, nextDescending with its doubled first
+   location, the mirrored merge in which the earlier location of current wins), for every
+   seek time MinInt64 <= t < MaxInt64: the returned blocks, each walked backwards as the
+   cursors do, concatenated, are the layer-A read from t downwards, strictly descending. *)
+Theorem keycursor_desc_refines_layerA :
+  forall (fs : list bfile) (t : Z),
+  Forall file_wf fs -> files_int64 fs -> min_int64 <= t < max_int64 ->
+  kc_values fs t false = layerA_read fs t false.
+Proof. exact keycursor_desc_refines_layerA_lemma. Qed.
+Print Assumptions keycursor_desc_refines_layerA.
+
+(* LAYER B REFINES LAYER A, both directions: for EVERY set of well-formed files, every
+   tombstone set, every seek time (inside the int64 range minus the one end at which
+   FileStore.locations' t-1 / t+1 wraps) and both directions. *)
+Theorem keycursor_refines_layerA :
+  forall (fs : list bfile) (t : Z) (asc : bool),
+  Forall file_wf fs -> files_int64 fs ->
+  (if asc then min_int64 < t <= max_int64 else min_int64 <= t < max_int64) ->
+  kc_values fs t asc = layerA_read fs t asc.
+Proof.
+  intros fs t [|] Hwf Hi Ht; [apply keycursor_asc_refines_layerA_lemma; assumption|apply keycursor_desc_refines_layerA_lemma; assumption].
+Qed.
+Print Assumptions keycursor_refines_layerA.
+
+(* the link to the executable spec of Run.v for the layer-B cases: the model's blocks satisfy
+   the check applied to the implementation's blocks (concatenation in the cursor's direction =
+   layer-A read) for ALL well-formed inputs in the seek domain *)
+Theorem spec_ok_blocks :
+  forall (fs : list bfile) (t : Z) (asc : bool),
+  Forall file_wf fs -> files_int64 fs ->
+  (if asc then min_int64 < t <= max_int64 else min_int64 <= t < max_int64) ->
+  concat (map (fun b => if asc then b else rev b) (kc_blocks fs t asc)) = layerA_read fs t asc /\
+  Forall (fun b : list tv => b <> []) (kc_blocks fs t asc).
+Proof. intros fs t asc Hwf Hi Ht. split; [exact (keycursor_refines_layerA fs t asc Hwf Hi Ht)|apply kc_stream_nonempty]. Qed.
+Print Assumptions spec_ok_blocks.
+
+(* The seek time excluded above is a real property of the model, which mirrors the code:
+   FileStore.locations computes readMax = t-1 in int64; at t = MinInt64 it wraps to MaxInt64,
+   every location counts as read and an ascending cursor returns nothing.  The query API never
+   seeks there (influxql.MinTime = MinInt64+2); the harness replays this on the real KeyCursor. *)
+Theorem keycursor_seek_minint64_refuted :
+  exists fs, Forall file_wf fs /\ files_int64 fs /\
+             kc_values fs min_int64 true = [] /\ layerA_read fs min_int64 true <> [].
+Proof.
+  exists [mkbf [[(5, VInt 1)]] []]. split; [repeat constructor; cbn; auto; discriminate|].
+  split; [intros f b x [<-|[]] [<-|[]] [<-|[]]; cbn; unfold min_int64, max_int64; lia|].
+  split; [vm_compute; reflexivity|vm_compute; discriminate].
+Qed.
+Print Assumptions keycursor_seek_minint64_refuted.
+
+(* the invariant the block merge ("a later location wins") rests on, for EVERY list of
+   locations delivered file by file, any number of them, either direction: sortLocations
+   returns a permutation in which any two OVERLAPPING blocks are in file order.  (Defect
+   7659585: sort.Sort with the same non-transitive Less broke this beyond 12 locations.) *)
+Theorem sort_locations_keeps_file_order :
+  forall (asc : bool) (l : list loc), ordpairs by_file l ->
+  Permutation l (sort_locations asc l) /\ ordpairs file_order (sort_locations asc l).
+Proof. intros asc l H. split; [exact (sort_locations_perm_lemma asc l H)|exact (sort_locations_keeps_file_order_lemma asc l H)]. Qed.
+Print Assumptions sort_locations_keeps_file_order.
+
+Theorem cursor_seeks_file_order :
+  forall fs t asc, ordpairs file_order (k_seeks (new_cursor fs t asc)).
+Proof. exact cursor_seeks_file_order_lemma. Qed.
+Print Assumptions cursor_seeks_file_order.
+
+(* the cursor above the KeyCursor ("cache values overlaid on file values", tie: cache wins):
+   for EVERY pair of sorted duplicate-free lists the ascending merge of array_cursor.gen.go /
+   iterator.gen.go is the newest-wins merge with the cache as the newer side, and the
+   descending merge of the reversed lists is its reverse *)
+Theorem cache_tsm_merge_is_newest_wins :
+  (forall cache tsm, cmerge_asc cache tsm = merge2 tsm cache) /\
+  (forall cache tsm, ssorted cache -> ssorted tsm -> cmerge_desc (rev cache) (rev tsm) = rev (merge2 tsm cache)).
+Proof. split; [exact cmerge_asc_is_merge2_lemma|exact cmerge_desc_is_rev_merge2_lemma]. Qed.
+Print Assumptions cache_tsm_merge_is_newest_wins.
+
+(* ... so that, for EVERY set of files, cache content (arrival order, duplicates allowed),
+   seek and end time: whenever the KeyCursor stream is the layer-A file read (proved above),
+   the engine cursor returns the
+   layer-A read of files AND cache over the range, in the requested direction *)
+Theorem engine_cursor_refines_layerA :
+  forall (fs : list bfile) (cv : list tv) (t fin : Z) (asc : bool),
+  (if asc then fin <= max_int64 else min_int64 <= fin) ->
+  kc_values fs t asc = layerA_read fs t asc ->
+  cursor_read fs cv t fin asc = layerA_cursor_read fs cv t fin asc.
+Proof.
+  intros fs cv t fin [|] Hfin Hkc; [apply cursor_refines_layerA_asc; assumption|apply cursor_refines_layerA_desc; assumption].
+Qed.
+Print Assumptions engine_cursor_refines_layerA.
+
+(* unconditionally, both directions: the engine cursor over files and cache equals the
+   layer-A read (files oldest -> newest, snapshot/hot cache on top) over the range *)
+Theorem engine_cursor_reads_layerA :
+  forall (fs : list bfile) (cv : list tv) (t fin : Z) (asc : bool),
+  Forall file_wf fs -> files_int64 fs ->
+  (if asc then min_int64 < t <= max_int64 /\ fin <= max_int64 else min_int64 <= t < max_int64 /\ min_int64 <= fin) ->
+  cursor_read fs cv t fin asc = layerA_cursor_read fs cv t fin asc.
+Proof.
+  intros fs cv t fin [|] Hwf Hi [Ht Hfin];
+    [apply engine_cursor_asc_refines_layerA_lemma; assumption|apply engine_cursor_desc_refines_layerA_lemma; assumption].
+Qed.
+Print Assumptions engine_cursor_reads_layerA.
+
+(* ---- non-vacuity (layer B) ---- *)
+
+(* three generations whose blocks overlap pairwise (> 12 locations), a value overwritten in a
+   newer file, a partially tombstoned block: the hypotheses hold, the cursor returns several
+   blocks, the newest value wins and the tombstoned points are gone *)
+Definition ex_bfiles : list bfile :=
+  [ mkbf [[(0, VInt 10); (1, VInt 11)]; [(2, VInt 12); (3, VInt 13)]; [(4, VInt 14); (5, VInt 15)]; [(6, VInt 16); (7, VInt 17)];
+          [(8, VInt 18); (9, VInt 19)]] [];
+    mkbf [[(1, VInt 21); (2, VInt 22)]; [(3, VInt 23); (4, VInt 24)]; [(5, VInt 25); (6, VInt 26)]; [(7, VInt 27); (8, VInt 28)]] [(4, 6)];
+    mkbf [[(1, VInt 31); (3, VInt 33)]; [(5, VInt 35); (7, VInt 37)]; [(9, VInt 39); (11, VInt 41)]; [(13, VInt 43)]; [(15, VInt 45)]] [] ].
+
+Example keycursor_asc_refines_layerA_nonvacuous :
+  forallb file_wfb ex_bfiles = true /\ files_int64 ex_bfiles /\
+  (13 <= length (k_seeks (new_cursor ex_bfiles 1 true)))%nat /\
+  (2 <= length (kc_blocks ex_bfiles 1 true))%nat /\
+  kc_values ex_bfiles 1 true =
+    [(1, VInt 31); (2, VInt 22); (3, VInt 33); (4, VInt 14); (5, VInt 35); (6, VInt 16); (7, VInt 37); (8, VInt 28);
+     (9, VInt 39); (11, VInt 41); (13, VInt 43); (15, VInt 45)].
+Proof.
+  split; [vm_compute; reflexivity|]. split; [|vm_compute; repeat split; try lia; reflexivity].
+  intros f b x Hf Hb Hx. unfold ex_bfiles in Hf. cbn in Hf.
+  repeat (destruct Hf as [<-|Hf]; [cbn in Hb; repeat (destruct Hb as [<-|Hb]; [cbn in Hx; repeat (destruct Hx as [<-|Hx]; [cbn; unfold min_int64, max_int64; lia|]); destruct Hx|]); destruct Hb|]).
+  destruct Hf.
+Qed.
+
+Lemma file_wfb_wf f : file_wfb f = true -> file_wf f.
+Proof.
+  unfold file_wfb, file_wf. intros H. apply andb_true_iff in H. destruct H as [H1 H2]. split; [|apply ssortedb_spec; exact H2].
+  apply Forall_forall. intros b Hb. rewrite forallb_forall in H1. specialize (H1 b Hb). destruct b; [discriminate|discriminate].
+Qed.
+
+Example keycursor_desc_refines_layerA_nonvacuous :
+  (2 <= length (kc_blocks ex_bfiles 9 false))%nat /\
+  kc_values ex_bfiles 9 false =
+    [(9, VInt 39); (8, VInt 28); (7, VInt 37); (6, VInt 16); (5, VInt 35); (4, VInt 14); (3, VInt 33); (2, VInt 22); (1, VInt 31); (0, VInt 10)].
+Proof. vm_compute. split; [lia|reflexivity]. Qed.
+
+(* the engine cursor with cache values before, inside and after the TSM data, one of them
+   overwriting a file value *)
+Example engine_cursor_nonvacuous :
+  cursor_read ex_bfiles [(2, VInt 92); (0, VInt 90); (12, VInt 99); (2, VInt 93)] 1 12 true =
+    [(1, VInt 31); (2, VInt 93); (3, VInt 33); (4, VInt 14); (5, VInt 35); (6, VInt 16); (7, VInt 37); (8, VInt 28);
+     (9, VInt 39); (11, VInt 41); (12, VInt 99)].
+Proof. vm_compute. reflexivity. Qed.
